@@ -94,6 +94,9 @@ def make_quantity(node):
         assert not fid and field in ("x", "y", "s", "c")
         return field
     fn = eval(_fn_src(field, fid), {})
+    if form == "deflam":
+        # functions from one source line that differ only in a default argument (the `lambda d, c=c: d[c]` idiom)
+        fn = eval("lambda d, _f=%r: d[_f]" % field, {})
     if form == "def":
         ns = {}
         exec("def %s(d):\n    return d[%r]\n" % (nm, field), ns)
